@@ -254,6 +254,10 @@ impl<'tcx> Cx<'tcx> {
             if let Some(bytes) = self.const_bytes(env, c) {
                 o.set("bytes", J::Arr(bytes.iter().map(|b| J::Int(*b as i128)).collect()));
             }
+            if let Some((v, ity)) = self.const_deref_int(env, c) {
+                o.set("deref_v", J::Str(v));
+                o.set("deref_ty", J::Str(ity));
+            }
         }
         o
     }
@@ -300,6 +304,51 @@ impl<'tcx> Cx<'tcx> {
             }
             _ => None,
         }
+    }
+
+
+    /// value of a `&<integer>` constant (e.g. the promoted `&0b10_u8`)
+    fn const_deref_int(&self, env: TypingEnv<'tcx>, c: &mir::ConstOperand<'tcx>) -> Option<(String, String)> {
+        let tcx = self.tcx;
+        let t = c.const_.ty();
+        let inner = match t.kind() {
+            ty::Ref(_, inner, _) => *inner,
+            _ => return None,
+        };
+        if !(inner.is_integral() || inner.is_bool()) {
+            return None;
+        }
+        let val = match c.const_ {
+            Const::Val(v, _) => v,
+            Const::Unevaluated(..) | Const::Ty(..) => c.const_.eval(tcx, env, c.span).ok()?,
+        };
+        let size = tcx.layout_of(env.as_query_input(inner)).ok()?.size.bytes() as usize;
+        if let mir::ConstValue::Scalar(rustc_middle::mir::interpret::Scalar::Ptr(ptr, _)) = val {
+            let (prov, offset) = ptr.prov_and_relative_offset();
+            let ga = tcx.try_get_global_alloc(prov.alloc_id())?;
+            let mem = match ga {
+                rustc_middle::mir::interpret::GlobalAlloc::Memory(m) => m,
+                _ => return None,
+            };
+            let a = mem.inner();
+            let start = offset.bytes() as usize;
+            let end = start + size;
+            if end > a.len() || size > 16 {
+                return None;
+            }
+            let bytes = a.inspect_with_uninit_and_ptr_outside_interpreter(start..end);
+            let mut buf = [0u8; 16];
+            buf[..size].copy_from_slice(bytes);
+            let u = u128::from_le_bytes(buf);
+            let s = if inner.is_signed() {
+                let shift = 128 - (size as u32) * 8;
+                format!("{}", ((u << shift) as i128) >> shift)
+            } else {
+                format!("{}", u)
+            };
+            return Some((s, format!("{}", inner)));
+        }
+        None
     }
 
     fn const_bytes(&self, env: TypingEnv<'tcx>, c: &mir::ConstOperand<'tcx>) -> Option<Vec<u8>> {
